@@ -12,7 +12,7 @@ func init() {
 		ID: "C37",
 		Decides: "(R37.1) lookup: Get hands out a member only together with found=true and answers not-found only if the address table has no (non-nil) entry; every address-table access keys on memberid(address) and every per-node access on the node address string; " +
 			"(R37.2) join: the per-node list written by Set derives from the node's current list, keeps an existing entry only if its member id differs from the joining member's, and appends the joining member once, after that filter; the address entry and the per-node list are written in one critical section of the address table; " +
-			"(R37.3) leave: Remove rewrites the node's list keeping exactly the entries whose member id differs from the leaving member's, removes the node entry only if nothing is left, and touches the per-node table only if the address entry was found.",
+			"(R37.4) every join and leave of the pool runs under the memberlist's joinedLock (the per-node list is read-modify-written inside the address shard's lock only); (R37.3) leave: Remove rewrites the node's list keeping exactly the entries whose member id differs from the leaving member's, removes the node entry only if nothing is left, and touches the per-node table only if the address entry was found.",
 		NotDecided: "linearizability of the two tables together (the per-node table is updated inside the address table's shard lock, other shards run in parallel); Empty() racing with Set().",
 		Run:        runC37,
 	})
@@ -157,6 +157,45 @@ func runC37(c *Ctx) {
 				GCalled("quicmemberlist.memberid(members[ι].Addr())"))
 		}
 	}
+	// the filter loops look at every current entry before the list is written / answered
+	if parent := c.Need(MP + "Set"); parent != nil {
+		if cl := c.ClosureWithCall(parent, "m.members.SetValue(*)"); cl != nil {
+			for _, l := range c.Loops(cl, "(ι < len(*))") {
+				c.MP(cl, "join: the per-node list is written only after the filter loop ran over every current entry", c.CallsD(cl, "m.members.SetValue(*)"), 1, GLoopDone(globEscape(l.Cond)))
+			}
+		}
+	}
+	if parent := c.Need(MP + "Remove"); parent != nil {
+		for _, f := range WithClosures(parent) {
+			for _, l := range c.Loops(f, "(ι < len(members))") {
+				var rets []ssa.Instruction
+				for _, r := range Returns(f) {
+					rets = append(rets, r)
+				}
+				c.MP(f, "leave: the filtered list is answered only after the loop ran over every current entry", rets, 1, GLoopDone(globEscape(l.Cond)))
+			}
+		}
+	}
+	// R37.4 --------------------------------------------------------------------------------------
+	// the per-node list is read-modify-written inside the *address* shard's lock, so two addresses of one
+	// node are serialised only by the memberlist's joinedLock: every mutation of the pool holds it
+	c.Rule("R37.4", "LockHeld")
+	nMut := 0
+	for _, m := range []string{"Set", "Remove", "Empty"} {
+		for _, s := range c.WhoCalls("(*network/quicmemberlist.membersPool)." + m) {
+			nMut++
+			st := c.LockStates(s.Fn, nil)
+			held := st[s.In]["&srv.joinedLock"]
+			if m == "Empty" {
+				// Empty runs when the local node leaves the memberlist, under the memberlist's own lock
+				c.Report(s.Fn, "members pool emptied only while leaving the memberlist, under the memberlist lock", c.InstrPos(s.In),
+					strings.HasPrefix(c.FuncKey(s.Fn), "network/quicmemberlist.(*Memberlist).Leave") && st[s.In]["&srv.l"] >= LW || held >= LW, c.FuncKey(s.Fn)+" "+stateStr(st[s.In]))
+				continue
+			}
+			c.Report(s.Fn, "members pool "+m+" runs under the memberlist's join lock", c.InstrPos(s.In), held >= LW, stateStr(st[s.In]))
+		}
+	}
+	c.Floor(nil, "mutations of the members pool", nMut, 3)
 	if fn := c.Need(MP + "MembersLen"); fn != nil {
 		c.Exists(fn, "the member count of a node is the length of its list", c.ReturnsD(fn, 0, "len(m.members.Value(node.String())#0)"), 1)
 	}
